@@ -35,6 +35,9 @@ ASSUMPTIONS = ["std/core functions panic only as documented", "third-party crate
 
 
 def check(run, fx, tier, floors=True):
+    if floors or any(b.path.endswith("argstack::ArgumentsStack::<'a, T>::push") for b in fx.bodies):
+        import rules_C18
+        rules_C18.t18_stack(run, fx, floors)
     recursion.run_rule(run, fx, "C01-a", lambda f: True, floors_n=6 if floors else None)
     rule_panics(run, fx, "C01-b", None, floors)
     arith.rule_alloc(run, fx, "C01-c", floors)
